@@ -216,6 +216,44 @@ def perceive (atoms : List PAtom) : Except SErr Perceived :=
     let sp := sg.map (·.1)
     .ok ⟨paths, sg, ctTerminals sp, ctCenters sp, alleneTerminals sp⟩
 
+/-! ## pack / unpack with the perception inside (nothing taken from chython) -/
+
+inductive UErr where
+  | pack (e : PErr)
+  | stereo (e : SErr)
+  deriving DecidableEq, Repr, Inhabited
+
+def UErr.toString : UErr → String
+  | .pack e => e.toString
+  | .stereo e => "stereo-" ++ e.toString
+
+/-- `MoleculeContainer.pack(compressed=False)` on `_atoms`/`_bonds` alone: the format check, then
+    `py_stereo = molecule._stereo_cis_trans_terminals` (first statement of `_pack_v2.pack`, evaluated for every molecule),
+    then the encoder -/
+def packFull (atoms : List PAtom) : Except UErr (List Nat) :=
+  match checkLimits atoms with
+  | .error e => .error (.pack e)
+  | .ok _ =>
+    match perceive atoms with
+    | .error e => .error (.stereo e)
+    | .ok p =>
+      match encodeRaw ⟨atoms, p.terminals⟩ with
+      | .error e => .error (.pack e)
+      | .ok bytes => .ok bytes
+
+/-- `MoleculeContainer.unpack(data, compressed=False)` complete: decoder, then the re-attachment loop with
+    `mol._stereo_cis_trans_centers` perceived on the decoded molecule (evaluated only when the cis/trans list is not empty) -/
+def unpackFull (data : List Nat) : Except UErr Decoded :=
+  match decode data with
+  | .error e => .error (.pack e)
+  | .ok d =>
+    match d.cisTrans with
+    | [] => .ok d
+    | _ :: _ =>
+      match perceive d.atoms with
+      | .error e => .error (.stereo e)
+      | .ok p => .ok { d with atoms := attach p.centers d.atoms d.cisTrans }
+
 /-! ## executable hypotheses of the stereo round-trip theorem (evaluated by the driver on every real molecule) -/
 
 /-- the dictionary keys an even path writes -/
